@@ -847,7 +847,8 @@ ApplyLogCall(st, e) ==
 ApplyLogCheck(st, e) ==
   LET got == {e.allowed[i] : i \in 1..Len(e.allowed)}
       want == IF st.logOn THEN st.filter ELSE {}
-  IN R(st, B(got # want, "C20", "log_check disagrees with the installed filter"))
+  \* (C20 speaks about a logger that is installed: a filter set before any logger exists is not judged)
+  IN R(st, B(st.logOn /\ got # want, "C20", "log_check disagrees with the installed filter"))
 
 \* ---- Stakker drop / end of case
 UnreleasedBad(st) ==
